@@ -3,9 +3,9 @@
    of src/parser/*.rs with its four panic sites: peek/skip after the token stream is exhausted, the
    two unreachable! of the token->operator conversions).  Property theorems only; proofs in
    proofs/ParserProof.v, LexerProof.v. *)
-From DTR Require Import Prelude I64 Ast FramedMap Lexer Parser Bind Eval Stmt Iter WfSpec.
+From DTR Require Import Prelude I64 Ast FramedMap Lexer LexSpec Parser Bind Eval Stmt Iter WfSpec.
 From DTR Require Import Generated GeneratedTables.
-From DTR.proofs Require Import EvalProof IterLogProof OutputsProof NoPanicProof ParserProof BindProof Chain LexerProof TablesProof ParserSpansProof.
+From DTR.proofs Require Import LexSpecProof EvalProof IterLogProof OutputsProof NoPanicProof ParserProof BindProof Chain LexerProof TablesProof ParserSpansProof.
 From Coq Require Import String.
 Local Open Scope nat_scope.
 
@@ -115,9 +115,44 @@ Theorem C09_recorded_spans_on_character_boundaries : forall s p, parse s = Ok p 
   Forall (fun x => boundary s (fst (snd x)) /\ boundary s (snd (snd x))) (p_virtuals p).
 Proof. exact parse_recorded_spans_on_boundaries. Qed.
 
+(* every token the parser sees (other than Error / Eof) has a lexeme matched by the rule of its kind in the table computed from the source's regexes, keywords and punctuation (LexSpec.lex_rules) *)
+Theorem C09_every_token_matches_its_rule :
+  forall (pos : N) (s : text) (ts : list token),
+  lex_body pos s = Some ts ->
+  Forall
+  (fun t : token =>
+  tkind t <> TError -> tkind t <> TEof -> rule_matches lex_rules (Some (tkind t)) (ttext t)) ts.
+Proof. exact lex_body_tokens_match. Qed.
+
+(* each scanner step consumes a non-empty prefix, so lexing any text terminates *)
+Theorem C09_scanner_makes_progress :
+  forall s : text,
+  (forall (k : option tk) (w r : text), lex_one s = Some (k, w, r) -> s = w ++ r /\ w <> []) /\
+  (lex_one s = None <-> s = []).
+Proof. exact lex_one_partition. Qed.
+
+(* an Error token covers one character where no rule of the table matches - what the parser turns into a located error *)
+Theorem C09_scanner_error_is_one_character_no_rule_matches :
+  forall s w r : text,
+  lex_one s = Some (Some TError, w, r) ->
+  (exists c : N, w = [c]) /\
+  (forall (k' : option tk) (w' r' : list N), s = w' ++ r' -> w' <> [] -> ~ rule_matches lex_rules k' w').
+Proof. exact LexSpecProof.lex_one_error. Qed.
+
+(* the header scanner has no error token at all *)
+Theorem C09_header_scanner_total :
+  forall s : list N,
+  s <> [] ->
+  exists (k : option htk) (w r : text),
+  hlex_one s = Some (k, w, r) /\ s = w ++ r /\ w <> [] /\ rule_matches hlex_rules k w.
+Proof. exact hlex_one_no_error. Qed.
+
+
 Check C09_parse_never_panics.
 Print Assumptions C09_parse_never_panics.
 Print Assumptions C09_parse_terminates.
 Print Assumptions C09_error_spans_in_text.
 Print Assumptions C09_error_spans_on_character_boundaries.
 Print Assumptions C09_token_spans_on_character_boundaries.
+Print Assumptions C09_every_token_matches_its_rule.
+Print Assumptions C09_scanner_error_is_one_character_no_rule_matches.
